@@ -226,6 +226,7 @@ struct Ctx {
   std::string mon_name;
   std::string cfg_name = "plain";
   long long only = -1;
+  uint64_t from = 0;                 // resume after a crashed case: skip indices below this
   bool dump_only = false;           // with --only: write the witness of that case before judging it
   std::map<std::string, std::string> opt; // extra --key value options
   Rng rng;
@@ -352,6 +353,7 @@ int main(int argc, char** argv) {
     else if (a == "--replay") ctx.replay_path = val();
     else if (a == "--only") ctx.only = strtoll(val().c_str(), nullptr, 10);
     else if (a == "--dump") ctx.dump_only = true;
+    else if (a == "--from") ctx.from = strtoull(val().c_str(), nullptr, 10);
     else if (a == "--progress") progress_path = val();
     else if (a.rfind("--", 0) == 0) { std::string k = a.substr(2); ctx.opt[k] = val(); }
     else { fprintf(stderr, "unknown argument %s\n", a.c_str()); return 2; }
@@ -379,7 +381,7 @@ int main(int argc, char** argv) {
     ctx.rng.reseed(ctx.seed, ctx.cur_index);
     vf_case(ctx, ctx.cur_index);
   } else {
-    for (uint64_t i = 0; i < ctx.ncases; ++i) {
+    for (uint64_t i = ctx.from; i < ctx.ncases; ++i) {
       // hashed shard assignment: uncorrelated with any "index modulo k" cycling a monitor uses
       { uint64_t z = i + 0x9E3779B97F4A7C15ull; z = (z ^ (z >> 30)) * 0xBF58476D1CE4E5B9ull; z = (z ^ (z >> 27)) * 0x94D049BB133111EBull; z ^= z >> 31;
         if ((int)(z % (uint64_t)ctx.nshards) != ctx.shard) continue; }
